@@ -364,9 +364,17 @@ def render_decl(k, line, rng=None, name=None):
             else:
                 src.append("func %s(%s) (%s) {\n%s\n}" % (pid, params, ", ".join(rets), "\n".join(body)))
                 e = "kessoku.Provide(%s)" % pid
-            for g in p['groups']:
-                for extra in g[1:]:
-                    e = "kessoku.Bind[%s](%s)" % (T(extra), e)
+            binds = [extra for g in p['groups'] for extra in g[1:]]
+            # both nestings are legal: Async(Bind[I](Provide(f))) and Bind[I](Async(Provide(f)))
+            inner_async = bool(p['a'] and binds and rng is not None and rng.chance(0.5))
+            if inner_async:
+                e = "kessoku.Async(%s)" % e
+            for extra in binds:
+                e = "kessoku.Bind[%s](%s)" % (T(extra), e)
+            if p['a'] and not inner_async:
+                e = "kessoku.Async(%s)" % e
+            exprs.append(e)
+            continue
         if p['a']:
             e = "kessoku.Async(%s)" % e
         exprs.append(e)
